@@ -134,15 +134,23 @@ func init() {
 		}
 		// Close requests fired at a schedule point come from *another* goroutine (as any caller's would): the step's
 		// own goroutine, which is the one passing the point, must not wait for itself.
+		// A point may be passed late (during the final close of the case): such a request is not fired any more, and every
+		// fired one is waited for before the case ends, so that none of them writes into the event log of the next case.
 		var asyncWG sync.WaitGroup
-		verifsched.RegisterAction("close", func() {
+		var asyncMu sync.Mutex
+		asyncOff := false
+		fire := func(name string, fn func() error) {
+			asyncMu.Lock()
+			if asyncOff {
+				asyncMu.Unlock()
+				return
+			}
 			asyncWG.Add(1)
-			go func() { defer asyncWG.Done(); closeLike("close", 99, running.Close) }()
-		})
-		verifsched.RegisterAction("force_close", func() {
-			asyncWG.Add(1)
-			go func() { defer asyncWG.Done(); closeLike("force_close", 99, running.ForceClose) }()
-		})
+			asyncMu.Unlock()
+			go func() { defer asyncWG.Done(); closeLike(name, 99, fn) }()
+		}
+		verifsched.RegisterAction("close", func() { fire("close", running.Close) })
+		verifsched.RegisterAction("force_close", func() { fire("force_close", running.ForceClose) })
 		var runSeq func(seq []Action, actor int)
 		runSeq = func(seq []Action, actor int) {
 			for _, a := range seq {
@@ -199,6 +207,10 @@ func init() {
 		asyncWG.Wait()
 		// let the step settle a little, then always close it so that every case ends with a complete life story
 		time.Sleep(10 * time.Millisecond)
+		asyncMu.Lock()
+		asyncOff = true
+		asyncMu.Unlock()
+		asyncWG.Wait()
 		st0, cs0 := running.State(), running.CurrentStage()
 		splugin.Log("state", cs0, 0, "final-before-close", string(st0))
 		closeLike("force_close", -1, running.ForceClose)
